@@ -26,6 +26,7 @@ import QV.Proofs.WriterContentDecode
 import QV.Proofs.WriterMsgRefine
 import QV.Proofs.WriterJustified
 import QV.Proofs.WriterAbsStep
+import QV.Proofs.WriterWalk
 
 namespace QV.C12
 open QV QV.Writer QV.ServerSafety
@@ -536,8 +537,35 @@ theorem C12_accepted_calls_are_accepted_by_the_specification (ss : Session) (op 
 theorem C12_abstract_state_follows (ss : Session) (op : Op) (a a' : Spec.Message.AState)
     (d : Spec.Message.Decoded) (hI : I ss.w) (hop : OpOK ss op) (hA : AbsNum ss.w a)
     (hok : (step ss op).1 = .ok ()) (habs : Spec.Message.absOk a d (Driver.toSpecOp op) = .ok a')
-    (hcur : a'.cur = (step ss op).2.w.cursor) : AbsNum (step ss op).2.w a' :=
+    (hcur : movesCursor op = true → a'.cur = (step ss op).2.w.cursor) : AbsNum (step ss op).2.w a' :=
   absNum_step ss op a a' d hI hop hA hok habs hcur
+
+/-! ### the walk of `checkSession`, for one segment
+
+  `C12_walk_reaches_final_check_partial` (restriction: sessions without `clear_rrs` and `getters`,
+  non-empty RRsets, limits at most 65535): from a fresh writer, `Spec.Message.walk` — run with the
+  specification's initial abstract state on the calls of the session (`toSpecOp`), the statuses the
+  model reports (`statusStr`, then `"ok"` for `finish`), the finished message and its decoding —
+  never rejects: every successful call is accepted by `absOk` (whose `cur`, read off the decoded
+  extents, is the cursor: `extents_prefix`), every failed call is `justified`; it equals the final
+  `checkSegment` in an abstract state `aF` that describes the final writer state (`AbsNum`).
+  What remains of `C12_full`: `checkSegment aF d …` itself (header, name equality by mode and
+  records — `C12_refinement_item_modes` in the decoder's vocabulary —, TSIG record, size —
+  `C12_limit_all_sequences` —, pointer audit — C13), `getters`, and the segments ended by
+  `clear_rrs`. -/
+theorem C12_walk_reaches_final_check_partial (macFn : Tsig → List UInt8 → List UInt8) (hmac : MacLenOK macFn)
+    (buf : Bytes) (limit : Nat) (s0 : State) (hnew : Writer.new buf limit = .ok s0) (hlim : limit ≤ 65535)
+    (mode : CMode) (ops : List Op) (ht : ∀ op ∈ ops, op.Typed)
+    (hr : Respects { w := { s0 with mode := mode } } ops) (hv : ∀ v, Op.setLimit v ∈ ops → v ≤ 65535)
+    (hno : ∀ op ∈ ops, op ≠ .clearRrs ∧ op ≠ .getters ∧ NonEmptySet op) (mac' : Option (List UInt8)) :
+    ∃ m mac d aF, finish (run { w := { s0 with mode := mode } } ops).1.w macFn = .ok (m, mac) ∧
+      Spec.Message.specDecodeMsg m = some d ∧ AbsNum (run { w := { s0 with mode := mode } } ops).1.w aF ∧
+      Spec.Message.walk false
+          { mode := Driver.toSpecMode mode, buflen := buf.size, limit := min limit buf.size }
+          (ops.map Driver.toSpecOp)
+          ((run { w := { s0 with mode := mode } } ops).2.map Driver.statusStr ++ ["ok"]) [m] (some d) mac' =
+        Spec.Message.checkSegment false aF d m.size mac' :=
+  walk_from_new macFn hmac buf limit s0 hnew hlim mode ops ht hr hv hno mac'
 
 /-! non-vacuity: a `CasePreserving` session that respects the contract, whose calls all succeed, and
     that emits two pointers (owner = QNAME; the CNAME target shares a suffix with it) — all
